@@ -8,18 +8,19 @@ From PngV Require Import Base.Bytes Base.Utf8 Gen.GenStream Model.Stream Model.S
 From RecordUpdate Require Import RecordSet.
 Import RecordSetNotations.
 
-(* an accepted keyword is written as bytes that decode to it; 1..79 characters *)
+(* an accepted keyword is written as bytes that decode to it; 1..79 characters, none of them NUL *)
 Theorem C17_keyword_written_is_read :
   forall kw b : list Z,
        enc_keyword kw = Ok b ->
-       decode_latin1 b = kw /\ bytes_ok b /\ (1 <= length kw <= 79)%nat /\ length b = length kw.
+       decode_latin1 b = kw /\
+       bytes_ok b /\ (1 <= length kw <= 79)%nat /\ length b = length kw /\ Forall (fun c : Z => c <> 0) kw.
 Proof. exact enc_keyword_ok. Qed.
 
-(* a keyword is accepted iff it has 1..79 characters, all in Latin-1 *)
+(* a keyword is accepted iff it has 1..79 characters, all in Latin-1 and none of them NUL (a keyword ends at the first zero byte of the chunk; after fix b862217) *)
 Theorem C17_keyword_refusal_exact :
   forall kw : list Z,
        (exists b : list Z, enc_keyword kw = Ok b) <->
-       (1 <= length kw <= 79)%nat /\ Forall (fun c : Z => 0 <= c < 256) kw.
+       (1 <= length kw <= 79)%nat /\ Forall (fun c : Z => 0 < c < 256) kw.
 Proof. exact enc_keyword_refusal_exact. Qed.
 
 (* keyword validation has no panic outcome *)
@@ -51,11 +52,16 @@ Theorem C17_non_ascii_language_refused :
        forall p : list Z, enc_itxt K kw c lang trans txt <> Ok p.
 Proof. exact itxt_lang_refused. Qed.
 
-(* tEXt: keyword and text read back *)
+(* iTXt refuses a NUL in the language tag or in the translated keyword *)
+Theorem C17_nul_in_language_tag_or_translated_keyword_refused :
+  forall (K : list Z -> list Z) (kw : list Z) (c : bool) (lang trans txt : list Z),
+       In 0 lang \/ In 0 trans -> forall p : list Z, enc_itxt K kw c lang trans txt <> Ok p.
+Proof. exact itxt_nul_refused. Qed.
+
+(* tEXt: keyword and text read back (every accepted value: no side condition) *)
 Theorem C17_tEXt :
   forall (s : dstate) (kw txt p : list Z),
        enc_text kw txt = Ok p ->
-       Forall (fun c : Z => c <> 0) kw ->
        c_raw s = p ->
        zlen p <= budget s ->
        exists k t : list Z,
@@ -66,14 +72,13 @@ Theorem C17_tEXt :
             |}, Ok ENothing) /\ decode_latin1 k = kw /\ decode_latin1 t = txt.
 Proof. exact text_roundtrip. Qed.
 
-(* zTXt: keyword read back; the stored stream decompresses to the text *)
+(* zTXt: keyword read back; the stored stream decompresses to the text (every accepted value) *)
 Theorem C17_zTXt :
   forall (K : list Z -> list Z) (I : list Z -> nat -> outcome (list Z) terr),
        (forall (raw : list Z) (limit : nat),
         bytes_ok raw -> (length raw <= limit)%nat -> I (K raw) limit = Ok raw) ->
        forall (s : dstate) (kw txt p : list Z) (n : nat),
        enc_ztxt K kw (Uncompressed txt) = Ok p ->
-       Forall (fun c : Z => c <> 0) kw ->
        c_raw s = p ->
        zlen p <= budget s ->
        (length txt <= n)%nat ->
@@ -86,13 +91,10 @@ Theorem C17_zTXt :
          decode_latin1 k = kw /\ decompress_text_with_limit I (Compressed z) n = Ok (Uncompressed txt).
 Proof. exact ztxt_roundtrip. Qed.
 
-(* iTXt: keyword, compression flag, language tag, translated keyword, text (or its compressed form) read back *)
+(* iTXt: keyword, flag, language tag, translated keyword and text read back (every accepted value whose translated keyword / uncompressed text are valid UTF-8, which Rust strings are) *)
 Theorem C17_iTXt :
   forall (K : list Z -> list Z) (s : dstate) (kw : list Z) (c : bool) (lang trans txt p : list Z),
        enc_itxt K kw c lang trans txt = Ok p ->
-       Forall (fun b : Z => b <> 0) kw ->
-       Forall (fun b : Z => b <> 0) lang ->
-       Forall (fun b : Z => b <> 0) trans ->
        utf8_valid trans = true ->
        (c = false -> utf8_valid txt = true) ->
        c_raw s = p ->
@@ -361,6 +363,7 @@ Print Assumptions C17_keyword_never_panics.
 Print Assumptions C17_bad_keyword_refused_by_all_kinds.
 Print Assumptions C17_non_latin1_text_refused.
 Print Assumptions C17_non_ascii_language_refused.
+Print Assumptions C17_nul_in_language_tag_or_translated_keyword_refused.
 Print Assumptions C17_tEXt.
 Print Assumptions C17_zTXt.
 Print Assumptions C17_iTXt.
